@@ -91,7 +91,13 @@ def check_path(path, x0, t0, V, exact, horizon=None, limits=None, closed=False, 
         return bad, stats
     if not np.all(np.diff(T) > 0):
         k = int(np.argmax(np.diff(T) <= 0))
-        v("times are not strictly increasing", step=k, t=float(T[k]), t_next=float(T[k + 1]))
+        absorbed = dT.shape[0] == n and float(dT[k]) > 0 and float(T[k]) + float(dT[k]) == float(T[k])
+        if absorbed:
+            # a positive step that is smaller than the spacing of float64 at t (rates of 1e17 after an astronomically large leap - the
+            # K-02 mechanism): time cannot advance in floating point; not a statement about the walk
+            stats["time_steps_absorbed_by_float_spacing"] = int(np.sum(np.diff(T) <= 0))
+        else:
+            v("times are not strictly increasing", step=k, t=float(T[k]), t_next=float(T[k + 1]))
     Jf = J.astype(float)
     if np.any(Jf < 0) or np.any(np.mod(Jf, 1) != 0):
         k = int(np.argmax(np.any((Jf < 0) | (np.mod(Jf, 1) != 0), axis=1)))
@@ -103,7 +109,16 @@ def check_path(path, x0, t0, V, exact, horizon=None, limits=None, closed=False, 
     expect = Jf.dot(V.T)
     # drift: the model also has explicit ODE terms, which a tau-leap step adds as f_ode*tau (not an event); only the event part is
     # checked then, and only in exact mode (which ignores the drift)
-    if not (drift and not exact) and not np.array_equal(dX, expect):
+    big = float(max(np.max(np.abs(X)), np.max(np.abs(expect)) if expect.size else 0.0)) >= 2.0 ** 50
+    if big and not (drift and not exact):
+        # beyond 2^50 integers are no longer all representable (and sums of several event contributions round): the clause is judged to
+        # the precision floating point has there
+        stats["steps_judged_with_float_tolerance"] = 1
+        if not np.allclose(dX, expect, rtol=1e-12, atol=4.0):
+            k = int(np.argmax(np.any(~np.isclose(dX, expect, rtol=1e-12, atol=4.0), axis=1)))
+            v("state change differs from state-change matrix x counts", step=k, dx=dX[k].tolist(), expected=expect[k].tolist(),
+              counts=Jf[k].tolist(), state=X[k].tolist(), beyond_exact_integers=True)
+    elif not (drift and not exact) and not np.array_equal(dX, expect):
         k = int(np.argmax(np.any(dX != expect, axis=1)))
         v("state change differs from state-change matrix x counts", step=k, dx=dX[k].tolist(), expected=expect[k].tolist(),
           counts=Jf[k].tolist(), state=X[k].tolist())
